@@ -50,6 +50,10 @@ def directed_choices():
     for i in range(len(VSPACE_SEPS)):
         for j in range(len(VSPACE_FIELDS)):
             out.append(dict(base, vspace=(i, j), cl='exact' if (i + j) % 2 else 'none', sclose=True))
+    # chunked bodies with and without trailer fields (never announced by a Trailer header field), chunk extensions
+    for tr in (b'', b'X-Trailer: v\r\n', b'X-T:1\r\nX-U: 2\r\n', b'Content-Length: 999\r\n'):
+        for conn in ('none', 'keep-alive', 'close'):
+            out.append(dict(base, te='chunked', cl='none', conn=conn, trailer_fix=tr))
     for icode in (100, 102, 103):
         for te in ('none', 'chunked'):
             out.append(dict(base, interim=1, icode=icode, te=te, cl='none' if te != 'none' else 'exact'))
@@ -402,6 +406,8 @@ def build_cmsg(ch, rng=None):
         cm['last'] = (r.choice([b'0', b'0', b'00', b'0;x']) if r else b'0' + ext0) + b'\r\n'
         if r:
             cm['trailer'] = r.choice([b'', b'', b'X-Trailer: v\r\n', b'X-T:1\r\nX-U: 2\r\n']) + b'\r\n'
+            if ch.get('trailer_fix') is not None:
+                cm['trailer'] = ch['trailer_fix'] + b'\r\n'
         else:
             cm['trailer'] = (b'T:v\r\n' if ch.get('tr') else b'') + b'\r\n'
     elif not bodyless:
